@@ -133,8 +133,10 @@ def check(run):
         run.violation({"what": "panic site(s) not in the pinned ledger and not discharged", "unchecked": "panic-site ledger (pins/C02_panic_sites.json)", "new_sites": new_sites[:20]}, no_input=True)
 
     # 5. lexer model correspondence on hostile strings
-    lt = [h for h in hostile] + ["".join(run.rng.choice(INTERESTING) for _ in range(run.rng.randrange(1, 9))) for _ in range(400 if run.tier == "quick" else 4000)]
+    comment_ends = [pre + body + end for pre in ("--", "//", "#", "/*") for body in ("", "c", " c ") for end in ("", "\r", "\n", "\r\n", "\r\rx", "\u2028", "\x0b", "\x0c", "*/", "*")]
+    lt = [h for h in hostile] + comment_ends + ["a " + c + "b" for c in comment_ends] + ["".join(run.rng.choice(INTERESTING) for _ in range(run.rng.randrange(1, 9))) for _ in range(400 if run.tier == "quick" else 4000)]
     lcs = spread(run.rng, lt, per_text=2)
+    lcs += [{"dialect": dn, "sql": c, "unescape": True} for c in comment_ends for dn in DIALECTS]
     try:
         lres, bad, inexpr = lex_correspondence(run, lcs, "c02")
         run.notes["correspondence_lexer_hostile"] = {"cases": len(lcs), "disagreements": len(bad), "not_expressible": len(inexpr)}
